@@ -19,26 +19,72 @@ var rR16w = RuleRef{Name: "R16w", Doc: "durability points and validation before 
 		{Pkg: walPkg, Fn: "WAL.Save", At: "ret-nil", NeedAny: []string{"F|call:MustSync", "C|sync", "C|cut"}, IfMay: []string{"C|saveEntry", "C|saveState"}, What: "a nil return after records were written passes sync()/cut() unless MustSync said no"},
 		{Pkg: walPkg, Fn: "WAL.Save", At: "call:saveState", NeedAll: []string{"C|MustSync"}, What: "MustSync is evaluated against the previous hard state before it is overwritten"},
 		{Pkg: walPkg, Fn: "WAL.sync", At: "ret-ok", NeedAny: []string{"C|Fdatasync", "T|field:unsafeNoSync"}, What: "sync reaches Fdatasync on every successful path unless unsafeNoSync"},
-		{Pkg: walPkg, Fn: "WAL.sync", At: "call:Fdatasync", NeedAny: []string{"OK|flush", "F|cmp:encoder!=nil"}, What: "the encoder is flushed before the file is synced"},
+		{Pkg: walPkg, Fn: "WAL.sync", At: "call:Fdatasync", NeedAny: []string{"OK|flush", "T|cmp:encoder==nil"}, What: "the encoder is flushed before the file is synced"},
 		{Pkg: walPkg, Fn: "WAL.cut", At: "call:Rename", NeedAll: []string{"OK|sync", "OK|saveState", "OK|saveCrc"}, What: "the new segment is complete and synced before it is renamed into place"},
 		{Pkg: walPkg, Fn: "WAL.cut", At: "ret-nil", NeedAll: []string{"OK|Rename", "OK|Fsync"}, What: "the directory is fsynced after the rename"},
 		{Pkg: walPkg, Fn: "WAL.cut", At: "call:Fsync", NeedAll: []string{"OK|Rename"}, What: "directory fsync comes after the rename"},
 		{Pkg: walPkg, Fn: "WAL.SaveSnapshot", At: "ret-ok", NeedAll: []string{"OK|encode", "C|sync"}, What: "a snapshot record is synced before SaveSnapshot returns"},
 		{Pkg: walPkg, Fn: "Repair", At: "ret-true", AllEdges: true, NeedAll: []string{"OK|Fsync"}, IfMay: []string{"C|Truncate"}, What: "the truncated file is fsynced before the repair is reported successful"},
-		{Pkg: walPkg, Fn: "Repair", At: "call:Validate", AllEdges: true, NeedAll: []string{"T|cmp:Sum32()!=0"}, What: "the segment-head CRC record is validated (Validate resets the record on mismatch) only when the decoder already has a running CRC"},
-		{Pkg: walPkg, Fn: "decoder.decodeRecord", At: "ret-nil", NeedAll: []string{"OK|Unmarshal"}, NeedAny: []string{"OK|Validate", "F|cmp:Type!=4"}, What: "a record is handed out only after it unmarshalled and its CRC validated (CRC records excepted)"},
-		{Pkg: snapPkg, Fn: "Read", At: "ret-nil", NeedAll: []string{"OK|Unmarshal", "F|cmp:Update()!=Crc"}, What: "a snapshot is returned only after its CRC matched"},
+		{Pkg: walPkg, Fn: "decoder.decodeRecord", At: "ret-nil", NeedAll: []string{"OK|Unmarshal"}, NeedAny: []string{"OK|Validate", "T|cmp:4==Type"}, What: "a record is handed out only after it unmarshalled and its CRC validated (CRC records excepted)"},
+		{Pkg: snapPkg, Fn: "Read", At: "ret-nil", NeedAll: []string{"OK|Unmarshal", "T|cmp:Crc==Update()"}, What: "a snapshot is returned only after its CRC matched"},
 		{Pkg: snapPkg, Fn: "Snapshotter.save", At: "ret-nil", NeedAll: []string{"OK|WriteAndSyncFile"}, What: "snapshot files are written through WriteAndSyncFile"},
 	}
 	c.checkOrder("R16w", obs)
 	c.Count("R16w_obligations", len(obs))
-	// isTornEntry consulted on both failure arms of decodeRecord
+	// segment-head CRC records: outside decodeRecord, Record.Validate (which resets the record on mismatch) runs only when
+	// the decoder already has a running CRC (crc != 0), wherever that code lives (ReadAll, Verify, Repair or a shared helper)
+	{
+		n := 0
+		dec := c.P.Func(walPkg, "decoder.decodeRecord")
+		for _, fn := range c.P.allFuncs(walPkg) {
+			if fn == dec {
+				continue
+			}
+			has := false
+			for _, b := range fn.Blocks {
+				for _, in := range b.Instrs {
+					if ci, ok := in.(ssa.CallInstruction); ok && callName(ci) == "Validate" {
+						has = true
+					}
+				}
+			}
+			if !has {
+				continue
+			}
+			of := c.orderFlow(fn, nil, true, "F|cmp:0==Sum32()", "F|cmp:0==?")
+			for _, b := range fn.Blocks {
+				for _, in := range b.Instrs {
+					ci, ok := in.(ssa.CallInstruction)
+					if !ok || callName(ci) != "Validate" {
+						continue
+					}
+					n++
+					states, live := of.States(in)
+					good := live
+					for _, st := range states {
+						if !st["F|cmp:0==Sum32()"] && !st["F|cmp:0==?"] {
+							good = false
+						}
+					}
+					c.Add("R16w", fnName(fn), "a segment-head CRC record is validated only when the decoder has a running CRC", in.Pos(), good, "Validate resets the record on mismatch; with a fresh decoder (crc 0) the stored previous CRC must be adopted, not compared")
+				}
+			}
+		}
+		c.Count("R16w_crc_record_validations", n)
+		c.Min("R16w_crc_record_validations", 2)
+	}
+	// isTornEntry consulted on both failure arms of decodeRecord (directly or through a shared helper)
 	if fn := c.P.Func(walPkg, "decoder.decodeRecord"); fn != nil {
 		n := 0
+		torn := c.P.Func(walPkg, "decoder.isTornEntry")
 		for _, b := range fn.Blocks {
 			for _, in := range b.Instrs {
-				if ci, ok := in.(*ssa.Call); ok && callName(ci) == "isTornEntry" {
-					n++
+				if ci, ok := in.(*ssa.Call); ok {
+					if callName(ci) == "isTornEntry" {
+						n++
+					} else if cf := callee(ci); cf != nil && cf != fn && torn != nil && firstParty(cf) == false && cf.Pkg == fn.Pkg && callsTransitively(cf, torn, 0) {
+						n++
+					}
 				}
 			}
 		}
